@@ -69,6 +69,10 @@ func buildMsg(t TxSpec) (sdk.ProtoMsg, error) {
 		if node == "" {
 			node = t.Signer
 		}
+		if a["legacy"] == "1" { // the message format of a chain on which the non-custodial upgrade is not active yet
+			return &nodesTypes.LegacyMsgStake{PublicKey: ckey(node).PublicKey(), Chains: argChains(a, "chains", []string{"0001"}), Value: argInt(a, "value", stakeN1),
+				ServiceUrl: "https://" + strings.ToLower(node) + ".example:443"}, nil
+		}
 		m := &nodesTypes.MsgStake{PublicKey: ckey(node).PublicKey(), Chains: argChains(a, "chains", []string{"0001"}), Value: argInt(a, "value", stakeN1),
 			ServiceUrl: "https://" + strings.ToLower(node) + ".example:443", Output: argAddr(a, "output", node)}
 		if v, ok := a["url"]; ok {
@@ -222,6 +226,20 @@ func buildTxBytesOpt(t TxSpec, height int64, canonical bool) ([]byte, error) {
 			if len(sigs) >= 2 {
 				sigs[1] = sigs[0]
 			}
+		case "empty-first": // right number of slots, the first member did not sign
+			sigs[0] = []byte{}
+		case "empty-last":
+			sigs[len(sigs)-1] = []byte{}
+		case "empty-all": // right number of slots, nobody signed
+			for i := range sigs {
+				sigs[i] = []byte{}
+			}
+		case "nil-all":
+			for i := range sigs {
+				sigs[i] = nil
+			}
+		case "stranger-last": // the last slot holds a valid signature of the same bytes by a key that is not a member
+			sigs[len(sigs)-1], _ = ckey("X").Sign(signBytes)
 		}
 		pub = pcrypto.PublicKeyMultiSignature{PublicKeys: pubs}
 		sigBz = pcrypto.MultiSignature{Sigs: sigs}.Marshal()
